@@ -325,6 +325,29 @@ struct Config
                     ids.push_back(id_of(f[k]));
                 }
         }
+        // a FixedSize / VaryingSize field is handed out as a Span: every way of reading it shows the same objects
+        if constexpr (Pi::kind != PLAIN)
+        {
+            const auto* first = f.data();
+            bool ok = (f.empty() == (n == 0)) && (f.begin() == first) && (f.end() == first + n) &&
+                      (static_cast<std::size_t>(f.end() - f.begin()) == n) &&
+                      (static_cast<std::size_t>(f.rend() - f.rbegin()) == n);
+            if (n > 0)
+            {
+                ok = ok && (&f.front() == first) && (&f.back() == first + (n - 1)) && (&*f.rbegin() == first + (n - 1)) &&
+                     (&*(f.rend() - 1) == first);
+                for (std::size_t k = 0; k < n; ++k) ok = ok && (&f[k] == first + k);
+                std::size_t k = 0;
+                for (auto& x : f) ok = ok && (&x == first + k++);
+                ok = ok && k == n;
+            }
+            if (!ok)
+            {
+                violation("C01:span-access-paths-disagree " + who + " param=" + std::to_string(I));
+                violation("C04:span-access-paths-disagree " + who + " param=" + std::to_string(I));
+                violation("C11:span-access-paths-disagree " + who + " param=" + std::to_string(I));
+            }
+        }
         if (start < prev_end) violation("C04:overlap-or-disorder " + who + " param=" + std::to_string(I));
         const auto greedy = (prev_end + Pi::al - 1) / Pi::al * Pi::al;
         if (I > 0 && start != greedy) violation("C05:not-lowest-aligned-address " + who + " param=" + std::to_string(I));
@@ -335,7 +358,7 @@ struct Config
     // where a reference says its element and every one of its fields live: (address, number of objects) per field
     using Sig = std::vector<std::pair<const void*, std::size_t>>;
     template <std::size_t I, class Ref>
-    static void sig_field(const Ref& r, Sig& sig)
+    static void sig_field(Ref& r, Sig& sig)  // Ref may be const-qualified: the overload of get<I> follows
     {
         using Pi = std::tuple_element_t<I, Params>;
         auto&& f = cntgs::get<I>(r);
@@ -357,6 +380,14 @@ struct Config
     static Sig sig_of(const Ref& r)
     {
         return sig_of(r, std::make_index_sequence<N>{});
+    }
+    // the fields only (an element has no data_begin()): where get<I>(x) says field I lives and how many objects it has
+    template <class X, std::size_t... I>
+    static Sig sig_fields(X& x, std::index_sequence<I...>)
+    {
+        Sig sig;
+        (sig_field<I>(x, sig), ...);
+        return sig;
     }
     void same_view(const Sig& want, const Sig& got, const std::string& path, const std::string& who)
     {
@@ -388,7 +419,8 @@ struct Config
         Vector& v = *slot.v;
         auto* base = reinterpret_cast<const std::byte*>(v.memory_.get());
         os << " size=" << v.size() << " cap=" << v.capacity() << " empty=" << v.empty() << " units=" << v.memory_.size() << " blk=" << blk_of(base)
-           << " alloc=" << v.get_allocator().id;
+           << " alloc=" << v.get_allocator().id << " fs="
+           << join(fixed_sizes_of(v, std::make_index_sequence<LT::CONTIGUOUS_FIXED_SIZE_COUNT>{}));  // get_fixed_size<I>() for every I
         if (!base)
         {
             if (v.size() != 0) violation("C09:null-block-with-elements v" + std::to_string(k));
@@ -481,6 +513,8 @@ struct Config
                 }
             }
             if (prev_end != reinterpret_cast<std::uintptr_t>(r.data_end())) violation("C04:data_end-is-not-last-field-end " + who);
+            if (r.size_in_bytes() != prev_end - estart || std::as_const(v)[e].size_in_bytes() != prev_end - estart)
+                violation("C04:size_in_bytes-is-not-the-extent-of-the-element " + who);
             if (prev_end > reinterpret_cast<std::uintptr_t>(v.data_end())) violation("C04:element-beyond-data_end " + who);
             prev_elem_end = prev_end;
             got_all.push_back(got);
@@ -493,6 +527,12 @@ struct Config
                 ++idx;
             }
             if (idx != v.size()) violation("C01:const-iteration-visits-wrong-number-of-elements v" + std::to_string(k));
+            {
+                std::size_t cidx = 0;
+                for (auto ci = std::as_const(v).cbegin(); ci != std::as_const(v).cend() && cidx <= v.size(); ++ci, ++cidx)
+                    if (cidx < v.size()) same_view(sig_of(v[cidx]), sig_of(*ci), "cbegin()..cend()", "v" + std::to_string(k) + "[" + std::to_string(cidx) + "]");
+                if (cidx != v.size()) violation("C01:cbegin-cend-visits-wrong-number-of-elements v" + std::to_string(k));
+            }
             idx = 0;
             for (auto&& mr : v)
             {
@@ -572,6 +612,13 @@ struct Config
         os << " |";
         dump_ref(os, r, base, block_bytes, prev_end, got, "e" + std::to_string(k), std::make_index_sequence<N>{});
         if (eoracle_valid[k] && got != eoracle[k]) violation("C12:element-value-differs e" + std::to_string(k));
+        {   // get<I>(element) - on a mutable and on a const element - and the references made from it denote the same fields
+            const Sig want = sig_fields(r, std::make_index_sequence<N>{});
+            if (sig_fields(e, std::make_index_sequence<N>{}) != want || sig_fields(std::as_const(e), std::make_index_sequence<N>{}) != want)
+                violation("C12:get-on-element-differs-from-its-reference e" + std::to_string(k));
+            cntgs::BasicContiguousReference<false, typename ToCntgs<Pm>::type...> mr{e};
+            if (sig_fields(mr, std::make_index_sequence<N>{}) != want) violation("C12:mutable-reference-to-element-differs e" + std::to_string(k));
+        }
         out << os.str() << "\n";
     }
 
@@ -1059,6 +1106,10 @@ struct Config
                         if (inc != bi + 1 || post != inc || old != bi) violation("C11:iterator-increment");
                         --inc;
                         if (inc != bi) violation("C11:iterator-decrement");
+                        auto pd = bi + 1;
+                        auto before = pd--;
+                        if (pd != bi || before != bi + 1) violation("C11:iterator-post-decrement");
+                        if ((1 + 0, (bi + 1) + (-1)) != bi) violation("C11:iterator-add-negative");
                     }
                     if (i < n && j < n)
                     {
